@@ -48,6 +48,39 @@ structure Cfg where
   smartMerge : Bool     -- ptttype.EDITPOST_SMARTMERGE: both branches append the same bytes (the smart one under flock, retried)
   deriving Repr, DecidableEq
 
+/-! ### site configuration: ptttype/config.go config()
+
+`config()` is a list of `X = setTConfig("KEY", X)` lines (regenerated as `Gen.PttConfig.configLines`); `viper` is what
+the deployment's ini file sets (key ↦ value).  Only the two switches the comment path reads are tracked. -/
+
+abbrev ConfigLine := String × String × String × String
+
+def lookupKey (viper : List (String × Bool)) (k : String) : Option Bool :=
+  match viper with
+  | [] => none
+  | (k', b) :: rest => if k' = k then some b else lookupKey rest k
+
+def setKey (viper : List (String × Bool)) (k : String) (b : Bool) : List (String × Bool) :=
+  match viper with
+  | [] => [(k, b)]
+  | (k', b') :: rest => if k' = k then (k', b) :: rest else (k', b') :: setKey rest k b
+
+/-- a line that assigns one of the switches of the comment path. -/
+def relevantLine (l : ConfigLine) : Bool :=
+  l.2.1 = "setBoolConfig" && (l.1 = "OLDRECOMMEND" || l.1 = "EDITPOST_SMARTMERGE")
+
+/-- `X = setBoolConfig("KEY", X)`: the value under KEY when the deployment sets it, else unchanged. -/
+def applyLine (viper : List (String × Bool)) (c : Cfg) (l : ConfigLine) : Cfg :=
+  if relevantLine l then
+    match lookupKey viper l.2.2.1 with
+    | some b => if l.1 = "OLDRECOMMEND" then { c with oldRecommend := b } else { c with smartMerge := b }
+    | none => c
+  else c
+
+/-- `ptttype.InitConfig` as far as the comment path is concerned. -/
+def applyConfig (lines : List ConfigLine) (viper : List (String × Bool)) (c : Cfg) : Cfg :=
+  lines.foldl (applyLine viper) c
+
 /-- `BrdAttr.HasPerm` / `x & c != 0`. -/
 def hasBit (a c : Nat) : Bool := a &&& c != 0
 
